@@ -182,6 +182,12 @@ JUMP = [
                 "new_ex = self.create_branch(ex, cond, target)",
                 "stack.push(new_ex)",
             ]),
+            "invalid_cond = And([dst.as_z3() != target for target in ex.pgm.valid_jumpdests()])",
+            ("if", ("decision", "jump_invalid_keep", "ex.check(invalid_cond)"), [
+                "bad_ex = self.create_branch(ex, invalid_cond, ex.pc)",
+                "bad_ex.st.push(BV(len(ex.pgm)))",
+                "stack.push(bad_ex)",
+            ], []),
         ], ["raise NotConcreteError(f'symbolic JUMP target: {dst}')"]),
     ]),
     "continue",
@@ -253,7 +259,7 @@ def translate(src_text):
     m.block(body, JUMP)
     decisions.update(m.decisions)
     payer_same = funds_sites(tree)
-    want = ["alias_keep", "alias_empty_keep", "funds_fail_keep", "jump_keep"]
+    want = ["alias_keep", "alias_empty_keep", "funds_fail_keep", "jump_keep", "jump_invalid_keep"]
     if sorted(decisions) != sorted(want):
         raise TranslateError(f"decision expressions found: {sorted(decisions)}, expected {sorted(want)}")
     lines = ["(* GENERATED by translate/t_branchpts.py from SEVM.resolve_address_alias, handle_insufficient_fund_case,",
@@ -268,13 +274,14 @@ def translate(src_text):
               "     is And(target != a) over ALL of ex.code; all alternatives are computed before the path is extended;",
               "   - insufficient funds: fail side ULT(balance, value), kept by funds_fail_keep; succeeding side",
               "     UGE(balance, value) appended by transfer_value, dropped only when it simplifies to false;",
-              "   - symbolic JUMP: one branch per valid destination kept by jump_keep; no branch for an invalid destination",
-              "     unless no destination is kept at all (then the whole state halts);",
+              "   - symbolic JUMP: one branch per valid destination kept by jump_keep; if no destination is kept the whole state",
+              "     halts; otherwise the inputs whose destination is none of the valid ones get a branch of their own (kept by",
+              "     jump_invalid_keep) on which the JUMP is executed again with a concrete invalid destination and halts;",
               "   - call sites (SEVM.call, SEVM.create): funds_payer_same = the account (and the amount) whose balance decides",
               "     the insufficient-funds fork is the one transfer_value debits on the side that goes ahead. *)",
               f"Definition funds_payer_same : bool := {'true' if payer_same else 'false'}.",
               "Definition alias_skips_test_contract : bool := true.",
-              "Definition jump_reports_invalid_destination : bool := false.", ""]
+              "Definition jump_reports_invalid_destination : bool := true.", ""]
     info = {"decisions": decisions}
     return "\n".join(lines), info
 
